@@ -158,6 +158,21 @@ def check(spec, ctx):
                 covered = max(covered, ge)
             if covered != end:
                 ctx.fail(f"segments cover the clip only up to {covered}, clip ends at {end}", spec, covered, end, kind="coverage")
+    # a clip derived from one that was already segmented (copy with a later end, attribute assignment) is tiled by ITS bounds
+    if spec["cls"] == "grid":
+        extra = eff_hop * 3 + dur
+        longer_end = end + extra
+        derived = {"model_copy(update=end_time)": clip.model_copy(update={"end_time": longer_end})}
+        assigned = clip.model_copy()
+        assigned.end_time = longer_end
+        derived["end_time assigned"] = assigned
+        ref2 = [(float(a), float(b)) for a, b, _, _ in reference(start, longer_end, dur, eff_hop, inc)]
+        for how, c2 in derived.items():
+            got2 = [(x.start_time, x.end_time) for x in segment_clip(c2, **kw)]
+            if got2 != ref2:
+                ctx.fail(f"{how}: a clip lengthened from [{start},{end}] to [{start},{longer_end}] yields {len(got2)} segments, its own lattice has {len(ref2)}", spec, got2[-3:], ref2[-3:], kind="stale_clip")
+        if [(x.start_time, x.end_time) for x in segment_clip(clip, **kw)] != got:
+            ctx.fail("segmenting the original clip again gives a different answer after deriving copies", spec, None, None, kind="not_repeatable")
     # identifiers
     ids = [s.uuid for s in segs]
     if len(set(ids)) != len(ids):
